@@ -368,7 +368,37 @@ class Point2Index(Contract):
         return out
 
     def fresh_result(s, E, st):
-        return tuple(E.fresh('k', 'int') for _ in st.p)
+        # point2index is a pure function of the region geometry, the cell counts and the point: at use sites its result
+        # is the application of one uninterpreted function per axis (so two calls with equal arguments agree by
+        # congruence); WHAT that function is, is exactly the post-condition above (assumed at every use)
+        return tuple(Sym(t, 'int') for t in cell_of(E, st.self, st.p))
+
+
+_P2I_FUN = {}
+
+
+def cell_of(E, mesh, p):
+    """spec function: the index tuple Mesh.point2index(p) (one uninterpreted Int function per axis and dimension count)"""
+    reg = mesh.attrs['_region'].attrs
+    d = len(reg['_pmin'].elems)
+    if getattr(E, 'valuation', None) is not None:
+        # replay on concrete data: the value of the spec function is computed (floor of the cell coordinate, clipped)
+        import math, fractions
+        from pyvc.states import tofloat
+        out = []
+        for a, b, k, x in zip(reg['_pmin'].elems, reg['_pmax'].elems, mesh.attrs['_n'].elems, p):
+            a, b, k, x = (fractions.Fraction(tofloat(v)) for v in (a, b, k, x))
+            out.append(z3.IntVal(int(min(max(math.floor((x - a) * k / (b - a)), 0), k - 1))))
+        return out
+    args = [toreal(R(x)) for x in reg['_pmin'].elems] + [toreal(R(x)) for x in reg['_pmax'].elems] + \
+           [toreal(R(x)) for x in mesh.attrs['_n'].elems] + [toreal(R(reg['_tolerance_factor']))] + [toreal(R(x)) for x in p]
+    out = []
+    for j in range(d):
+        key = (d, j)
+        if key not in _P2I_FUN:
+            _P2I_FUN[key] = z3.Function(f'point2index_{d}d_{j}', *([z3.RealSort()] * len(args)), z3.IntSort())
+        out.append(_P2I_FUN[key](*args))
+    return out
 
 
 # ======================================================================= Mesh.__init__
